@@ -318,6 +318,9 @@ func runJob(ld *sym.Loaded, j *job, tier, scratch string, verbose bool) (res *sy
 	if j.spec.Opts["clock"] == "fixed" {
 		c.FixedClock = true
 	}
+	if j.spec.Opts["clock"] == "ticking" {
+		c.FixedClock, c.TickingClock = true, true
+	}
 	if j.spec.Opts["panics"] == "assume" {
 		c.PanicsAssume = true
 	}
